@@ -26,7 +26,7 @@ let parse_cfg (toks : string list) : e2e_cfg =
 let parse_event (text : string) : sys_event =
   match split_on ' ' text with
   | ("CALL" | "CALLS") :: id :: rest -> SCall (n_of_int (int_of_string id), Cl_io.parse_api rest)
-  | "BPUB" :: rest -> SBpub (Gw_io.parse_mq rest)
+  | ("BPUB" | "BPUBS") :: rest -> SBpub (Gw_io.parse_mq rest)
   | "BBURST" :: rest ->
     (* PUBLISH specs separated by "|" *)
     let rec groups cur acc = function
